@@ -8,6 +8,10 @@ def sysnote(extra=""):
     return ("Trusted: TLC; the recorder's projection (provenance ids via wrapped prior_transform/log_likelihood, order ranks, content tags, re-computation at the recorded temperature with the library's own functions); hooks placed after the state change. " + extra)
 
 CHECKS = {
+ "C04": dict(level="model_checking",
+    text="MISWeights.tla computes the balance-heuristic weights and evidence in exact rational arithmetic (log-likelihoods k*ln2, temperatures in {0,1/2,1}, evidences powers of two) with one action per step of compute_logw_and_logz; TLC enumerates all histories within the bounds (T<=3 batches, unequal sizes, any temperature order) and checks the formula, sum-to-one, permutation invariance, shift invariance, batch-split invariance, the single-batch case and a dominant-term enclosure; five seeded wrong formulas are refuted. Every enumerated history is built in a real StateManager through its public API and compared with the rationals at 1e-12, and replayed through shift families up to +-1e6 and within-history spreads of +-1e6 (finite, normalised, inside the enclosure). In every recorded whole run the weights handed on by reweighting are compared with an independent reference (clause RW_RefAgrees).",
+    note="Trusted: TLC; libm exp/log (the code's only inexactness); the largest models are sampled by VERIF_SEED in the quick tier.",
+    technique="TLA+ spec (MISWeights.tla) model-checked by TLC; enumerated histories replayed into the implementation", design="DESIGN.md §4 C04"),
  "C05": dict(level="model_checking",
     text="Reweight.tla models Reweighter.run with one action per metric evaluation over a dyadic temperature grid and arbitrary (also non-monotone) ESS / volume-metric oracles chosen lazily by TLC; invariants: result in [beta_prev,1], advance => ESS(result) >= target (ESS mode), result <= ESS limit with ESS(limit) >= target (volume mode), written (beta, ess, logz) and returned weights carry the same temperature, termination; seeded wrong variants refuted. Every enumerated behaviour is replayed into the real Reweighter.run with tagged stubs (queried temperature sequence, written state and weight tag compared exactly); real-history runs without stubs. System layer: every Reweight event of recorded whole runs is validated by TLC against PSRunTrace.tla (RW_FirstZero, RW_Monotone, RW_Bounded, RW_AdvanceESS, RW_Limit, RW_SameBeta) with ESS / evidence / weights recomputed at the recorded temperature from the pre-step history.",
     note=sysnote("ESS >= target compared with 1e-9 relative slack on the library's own ESS function; that the weight formula is right is C04's job."),
@@ -48,6 +52,10 @@ CHECKS = {
     text="PSRun.tla carries the clusterer state and, for every proposal mode, the label it was fitted from; TLC checks LabelsCoherent on the bounded model and refutes the code-shaped variants (modes indexed by rank among occurring labels; predict on an unfitted clusterer). Recorded runs over cadence x cap x normalize x kernel x target are validated against TR_PredictFitted, TR_ModesOK, RS_LabelRange, MB_Labels, MB_ModesOK; the label a mode was fitted from is observed (rows handed to fit_mvstud looked up in the predicted labels).",
     note=sysnote(""),
     technique="TLA+ system spec (PSRun.tla) model-checked by TLC + trace validation of recorded runs (PSRunTrace.tla)", design="DESIGN.md §4 C14"),
+ "C15": dict(level="model_checking",
+    text="PARTIAL: the hierarchical model is decided with HGMSplit.tla (split loop with a nondeterministic BIC/partition oracle: labels are a partition, K <= cap, accepted splits have both children >= min_points, small clusters never split, predict in [0,K)); every terminal behaviour is replayed into the real HierarchicalGaussianMixture with GaussianMixture scripted from the oracle, and the split sequence of real fits on generated data (10 data kinds x 9 weight kinds, normalize on/off, caps as the sampler sets them) is validated by TLC against HGMTrace.tla. The EM mixture invariants (weights, symmetry, PSD, mean in bounding box) are MONITORED on every real fit and escalated only when gross, on clearly well-posed input and reproducible; the integer-weight = replication equivalence is not addressed; tied/spherical excluded.",
+    note="Trusted: TLC; scipy's multivariate normal; monitoring of the numerical EM routine is not a decision by the model.",
+    technique="TLA+ specs (HGMSplit.tla, HGMTrace.tla) model-checked by TLC; scripted replays and trace validation of real fits; monitored predicates for EM", design="DESIGN.md §4 C15"),
  "C16": dict(
     level="model_checking",
     text="TLC enumerates Fold.tla exhaustively (all lattice vectors at resolutions M, all periodic/reflective/hard index assignments, 1-D and 2-row inputs) and checks the fold invariants and the symmetry of a symmetric walk on the folded space; every enumerated state is replayed into apply_boundary_conditions/check_bounds with exact doubles. IEEE-specific inputs (subnormals, +-0, ulp-neighbours of integers, |x| up to 1.8e308) are decided against the spec's definitions evaluated over exact rationals by an oracle that must reproduce every TLC state.",
